@@ -14,16 +14,28 @@ MANIFEST = dict(
          "computation, compose_name, convert_records, the four section getters, encode_domain_name, add_query, "
          "add_record, update_records, update_dname, serialization, and the typed SOA accessor soa_record::init / decode_domain_name / "
          "soa_record::serialize): memory safety of getters and edits on every "
-         "object state, refinement of the four sections under any history of insertions, serialize/re-parse, "
-         "pointer loops / out-of-range pointers rejected. Tied to the code by differential correspondence on random "
-         "and exhaustive edit histories over fresh, reference-encoded (with and without compression) and hostile "
-         "messages under ASan/UBSan, and by the Lean spec oracle evaluated on the implementation's own output.",
+         "object state; refinement of the four sections under any history of insertions, serialize/re-parse and header counts "
+         "for fresh objects, uncompressed reference encodings AND every stored message with name compression that the decidable "
+         "predicate wfMsg accepts (layout of the four sections, every pointer designates a label boundary of a stored name in no "
+         "later section, every name resolves within the caps): pointers_preserved (update_records re-targets exactly the pointers "
+         "whose target moves; every question / owner / data name resolves to the same labels and is read as the same text after ANY "
+         "insertion), sections_refine_wf, reparse_sections_compressed, and sections_refine_compressed_holds for the Lean reference "
+         "compressor (suffix-table invariant, refCompress_wf); compose_name sound and complete for RFC 1035 resolutions "
+         "within the caps; pointer loops / out-of-range pointers rejected by every getter (getters_reject_unresolvable). Outside wfMsg two witnesses of silently changed names on "
+         "accepted messages (KF-C10-12 forward pointer into a later section, KF-C10-13 pointer into opaque record data). Tied to the "
+         "code by differential correspondence on random and exhaustive edit histories over fresh, reference-encoded (with and "
+         "without compression), hand-assembled compressed (pointer targets at / next to every section offset and 12 octets off, "
+         "pointer chains up to and past the jump cap, 253..259-octet names through pointers, compressed SOA/MX data followed by "
+         "records) and hostile messages under ASan/UBSan, and by the Lean spec oracle evaluated on the implementation's own output "
+         "(for EVERY accepted message that wfMsg accepts the following insertions must extend what the getters showed).",
     note="Trusted: Lean kernel + standard axioms; hand-written model tied by correspondence (harness/c10_dns.cpp); "
          "inet_pton/inet_ntop are external (the generator supplies inet_pton's result, AAAA text is compared as the "
-         "address it parses to); the Python reference encoder in checks/C10.py; generator coverage bounds what the "
-         "tie sees.",
-    technique="Lean 4 proof (representation invariant + refinement over edit histories, fault-explicit safety) "
-              "+ model/impl correspondence + spec oracle",
+         "address it parses to); the Python reference encoder and the hand assembler (class Raw) in checks/C10.py; generator "
+         "coverage bounds what the tie sees. (The Lean reference compressor refCompress is proved to produce accepted, "
+         "well-formed messages that are read back as the content: refCompress_wf; the Python encoder is checked per message by the "
+         "oracle's wfMsg.)",
+    technique="Lean 4 proof (layout relation + pointer-target invariant + transport of layout / names / views under the "
+              "insertion, refinement over edit histories, fault-explicit safety) + model/impl correspondence + spec oracle",
     design="DESIGN.md §6 C10")
 MANIFEST["note"] += (" Constants and limits of the C++ source that the model restates (translator/gen_limits.py -> Gen/Limits.lean: "
                      "compiled probe + preprocessed function bodies at named anchors) are tied to the model's numerals by the "
@@ -384,6 +396,209 @@ def chain_case(rng, depth):
     return ops
 
 
+# -- hand-assembled compressed messages: every name is literal labels followed by a terminator or by a pointer to a CHOSEN
+#    label boundary (of a question name, an owner name, a name inside record data, a terminator, another pointer), so
+#    that pointer targets sit exactly where the theorems of Props.C10 §6 have their case distinctions
+
+LAST_RAW = None
+
+
+class Raw:
+    def __init__(self):
+        self.buf = bytearray()
+        self.exp = {}                    # message offset of a label boundary -> (expanded labels, jumps needed from there)
+        self.secs = {"q": [], "an": [], "au": [], "ad": []}
+        self.max_jumps = 0
+        self.max_wire = 0
+
+    def off(self):
+        return 12 + len(self.buf)
+
+    def name(self, spec):
+        """spec = (labels, target message offset or None); returns the expanded labels"""
+        labels, target = spec
+        tail, j = ((), 0) if target is None else (self.exp[target][0], self.exp[target][1] + 1)
+        pos = []
+        for l in labels:
+            pos.append(self.off())
+            self.buf += bytes([len(l)]) + l
+        end = self.off()
+        self.buf += b"\0" if target is None else struct.pack(">H", 0xC000 | target)
+        full = tuple(labels) + tuple(tail)
+        for i, p in enumerate(pos):
+            self.exp[p] = (full[i:], j)
+        self.exp[end] = (tuple(tail), j)
+        self.max_jumps = max(self.max_jumps, j)
+        self.max_wire = max(self.max_wire, len(wire_name(full)))
+        return list(full)
+
+    def question(self, spec, qtype=1, qcls=1):
+        n = self.name(spec)
+        self.buf += struct.pack(">HH", qtype, qcls)
+        self.secs["q"].append((n, qtype, qcls))
+
+    def record(self, sec, owner, rtype, kind, data, cls=1, ttl=7):
+        o = self.name(owner)
+        self.buf += struct.pack(">HHI", rtype, cls, ttl)
+        lenpos = len(self.buf)
+        self.buf += b"\0\0"
+        if kind in ("a", "aaaa", "raw"):
+            self.buf += bytes(data)
+            d = bytes(data)
+        elif kind == "name":
+            d = self.name(data)
+        elif kind == "mx":
+            self.buf += struct.pack(">H", data[0])
+            d = (data[0], self.name(data[1]))
+        else:
+            m = self.name(data[0])
+            r = self.name(data[1])
+            self.buf += data[2]
+            d = (m, r, data[2])
+        struct.pack_into(">H", self.buf, lenpos, len(self.buf) - lenpos - 2)
+        self.secs[sec].append(Rec(o, rtype, cls, ttl, kind, d))
+
+    def boundaries(self):
+        return sorted(self.exp)
+
+    def ops(self, specified=True, getter=None):
+        q, an, au, ad = (self.secs[k] for k in ("q", "an", "au", "ad"))
+        wire = struct.pack(">HHHHHH", 0x4242, 0x8180, len(q), len(an), len(au), len(ad)) + bytes(self.buf)
+        if getter:
+            return [f"parse {hexs(wire)} @E {getter}"]
+        return [parse_op(wire, q, an, au, ad, specified=specified)]
+
+
+def edits_everywhere(rng, pool, n=None):
+    """legal insertions into every section (and questions), each followed now and then by a re-parse"""
+    ops = []
+    order = list("qaud") + [rng.choice("qaud") for _ in range(rng.randint(0, 3) if n is None else n)]
+    rng.shuffle(order)
+    for s in order:
+        ops.append(gen_edit(rng, pool, s, legal_only=True))
+        if rng.random() < 0.2:
+            ops.append("reparse")
+    ops += ["reparse", "soas"]
+    return ops
+
+
+def threshold_case(rng, delta=None):
+    """names whose label boundaries sit at / next to every section offset, at the same distances shifted by the 12
+       header octets (message offsets vs. offsets into records_data_), probed by a bare pointer from behind every
+       insertion point; SOA / MX data with pointers followed by further records"""
+    w = Raw()
+    L = lambda: bytes(rng.choice(LDH) for _ in range(rng.choice([1, 1, 2, 3, 5])))
+    F = lambda: bytes(rng.choice(LDH) for _ in range(rng.choice([1, 2, 10, 11, 12])))   # next boundary 11..13 octets on
+    w.question(([L(), L(), b"c"], None))
+    q0 = 12
+    # answers: the last one ends in a name (its terminator is the last octet in front of authority_idx_)
+    w.record("an", ([F()], q0), T_A, "a", bytes([10, 0, 0, 1]))
+    if delta is not None:
+        # a literal name, then opaque data sized so that a boundary of that name sits `delta` octets in front of the next section
+        w.record("an", ([], None), T_NS, "name", ([b"pq", L()], None))
+        last = max(w.exp)                      # terminator of that name
+        pad = delta - (w.off() - (last - 3)) - 11
+        if pad >= 0:
+            w.record("an", ([], None), T_TXT, "raw", bytes(pad))
+    if rng.random() < 0.7:
+        w.record("an", ([L()], q0), T_NS, "name", ([L(), b"yz"], rng.choice([None, q0])))
+    # authority: starts with a fully written-out owner; SOA with both names compressed, then more records
+    w.record("au", ([F(), b"bc", L()], None), T_NS, "name", ([b"ns"], q0))
+    bs = w.boundaries()
+    w.record("au", ([], rng.choice(bs)), T_SOA, "soa", (([b"m"], rng.choice(bs)), ([b"h"], rng.choice(bs)), bytes(range(20))))
+    w.record("au", ([L()], rng.choice(w.boundaries())), T_NS, "name", ([], rng.choice(w.boundaries())))
+    # additional: MX with a compressed exchange, then one probe per label boundary of the message
+    w.record("ad", ([F(), L()], None), T_MX, "mx", (rng.choice([0, 10, 65535]), ([b"mx"], rng.choice(w.boundaries()))))
+    for i, b in enumerate(w.boundaries()):
+        if w.exp[b][1] >= 30:
+            continue
+        k = i % 4
+        if k == 0:
+            w.record("ad", ([], b), T_A, "a", bytes([1, 2, 3, i % 256]))
+        elif k == 1:
+            w.record("ad", ([b"p%d" % i], b), T_CNAME, "name", ([], b))
+        elif k == 2:
+            w.record("ad", ([], b), T_MX, "mx", (i, ([b"e"], b)))
+        else:
+            w.record("ad", ([], None), T_PTR, "name", ([b"r"], b))
+    # the same bare pointer as owner of two records with an owner of another form in between (seeded/C10d)
+    for _ in range(2):
+        b = rng.choice([x for x in w.boundaries() if w.exp[x][1] < 30])
+        w.record("ad", ([], b), T_A, "a", bytes([7, 7, 7, 7]))
+        w.record("ad", ([L()], rng.choice([b, None])), T_A, "a", bytes([8, 8, 8, 8]))
+        w.record("ad", ([], b), T_AAAA, "aaaa", bytes(range(16)))
+    ok = w.max_jumps <= 31 and w.max_wire <= 255
+    global LAST_RAW
+    LAST_RAW = w
+    return w.ops(specified=ok) + edits_everywhere(rng, [[b"c"], [b"bc", b"c"]])
+
+
+def pointer_chain_case(rng, depth, where):
+    """a chain of `depth` bare pointers (each designates the previous pointer), through owner names ('own') or through
+       names inside record data ('data'): resolving the last one takes `depth` jumps (31 is the most compose_name follows)"""
+    w = Raw()
+    w.question(([b"ab", b"c"], None))
+    prev = 12
+    for k in range(depth):
+        here = w.off()
+        sec = "an" if k < depth // 2 else "au"
+        if where == "own":
+            w.record(sec, ([], prev), T_A, "a", bytes([9, 9, 9, k % 256]))
+            prev = here
+        else:
+            w.record(sec, ([b"o"], 12), T_NS, "name", ([], prev))
+            prev = w.off() - 2
+    w.record("ad", ([b"z"], prev), T_MX, "mx", (1, ([], prev)))
+    if w.max_jumps > 31:                                  # the MX record needs depth + 1 jumps: additional() has to report it
+        return w.ops(getter="AD") + edits_everywhere(rng, [[b"ab", b"c"]])
+    return w.ops() + edits_everywhere(rng, [[b"ab", b"c"]])
+
+
+def long_name_case(rng, total, jumps):
+    """a name of `total` octets on the wire (253..255 are legal, compose_name also returns 256 and 257, more is an error)
+       reached through `jumps` pointers: literal labels + pointer to a suffix that itself ends in a pointer ..."""
+    w = Raw()
+    w.question(([b"q"], None))
+    # suffixes: s_1 = `k` + root, s_i = label + ptr(s_{i-1})
+    w.record("an", ([b"k"], None), T_TXT, "raw", b"")
+    tgt = w.off() - 13                                   # the label `k` of that owner
+    size = 3
+    for i in range(jumps - 1):
+        here = w.off()
+        w.record("an", ([b"j%d" % i], tgt), T_TXT, "raw", b"\1")
+        size += 1 + len(b"j%d" % i)
+        tgt = here
+    rest = total - size
+    labels = []
+    while rest > 0:
+        n = min(63, rest - 1)
+        if rest - 1 - n == 1:                            # never leave room for a label without octets
+            n -= 1
+        labels.append(bytes([rng.choice(LDH)]) * n)
+        rest -= 1 + n
+    ok = total <= 255
+    sec = rng.choice(["an", "au", "ad"])
+    w.record(sec, (labels, tgt), T_NS, "name", (labels[:1], tgt))
+    w.record("ad", ([], None), T_MX, "mx", (3, (labels, tgt)))
+    if total > 257:
+        return w.ops(getter={"an": "AN", "au": "AU", "ad": "AD"}[sec])
+    return w.ops(specified=ok) + edits_everywhere(rng, [[b"k"]])
+
+
+def stress_cases(rng, quick):
+    out = []
+    for d in (None, 11, 12, 13, 23, 24, 25, 0, 1, 2):
+        for _ in range(2 if quick else 12):
+            out.append(threshold_case(rng, d))
+    for depth in (1, 2, 15, 30, 31, 32, 33):
+        for where in ("own", "data"):
+            out.append(pointer_chain_case(rng, depth, where))
+    for total in (64, 252, 253, 254, 255, 256, 257, 258, 259, 300):
+        for jumps in (1, 2, 5):
+            out.append(long_name_case(rng, total, jumps))
+    return out
+
+
 # -- malformed messages: the affected getter (or the constructor) has to report an error, never touch memory outside
 
 def hdr(nq, nan, nau, nad):
@@ -691,6 +906,7 @@ def run(chk):
     cap = gen_limits.values().get("dnsPointerJumpCap")
     depths = {2, 5, 31, 32, 33, 40} | ({cap, cap + 1, cap + 2, cap + 3} if cap is not None and cap < 2000 else set())
     go([chain_case(rng, d) for d in sorted(depths)])
+    go(stress_cases(rng, quick))
     go([realistic_case(rng) for _ in range(300 if quick else 3000)])
     go(exhaustive_cases(rng, 2, 10**9) + (exhaustive_cases(rng, 3, 10**9) if not quick else []))
     # seeded random histories
@@ -711,7 +927,9 @@ def run(chk):
         if not found:
             chk.violation("proof obligation no longer checks: " + p[:1500], ["theorem-or-audit-failure", p[:4000]], nofail=True)
     chk.cov["rule"] = ("cases = (initial message: fresh | reference-encoded without/with/mixed compression | realistic "
-                       "compressed response | malformed | damaged, history of add_query/add_answer/add_authority/"
+                       "compressed response | hand-assembled compressed (pointer targets at and next to every section offset, 12 "
+                       "octets off, pointer chains 1..33, names of 64..300 octets through 1..5 pointers, compressed SOA/MX data "
+                       "followed by records, repeated bare-pointer owners) | malformed | damaged, history of add_query/add_answer/add_authority/"
                        "add_additional with records of types A, AAAA, NS, CNAME, PTR, DNAME, MX, SOA, TXT/opaque, "
                        "re-parse; soa_record(buffer) on reference encodings of SOA data, on every prefix, on buffers without NUL / with the "
                        "NUL only in the second name / with truncated counters / pointers / over-long text, every length 0..40; "
@@ -725,8 +943,11 @@ def run(chk):
         "reference-encoded initial messages whose names need more than 31 pointer jumps are outside the specified "
         "fragment (libtins caps the jumps to defend against loops)",
         "records_data_ below 4 GiB (section offsets are uint32_t) and fewer than 65536 records per section",
-        "compression pointers point backwards (RFC 1035 'prior occurrence'); a pointer that would exceed 14 bits after "
-        "an insertion makes the insertion fail with malformed_packet",
+        "stored messages with name compression: the refinement theorems ask for wfMsg (lean/TinsModel/Dns/Layout.lean: sections "
+        "laid out back to back between the stored offsets, record data shaped as its type demands, every pointer designates a "
+        "label boundary of a question / owner / NS,CNAME,PTR,DNAME,MX,SOA data name in no later section, every name resolves "
+        "within 31 jumps and 255 octets) and for a message below 16 KiB (offsets have 14 bits; a pointer that would exceed them "
+        "makes the insertion fail with malformed_packet)",
         "records_data_.shrink_to_fit() is called by the harness before each observation so that ASan sees accesses "
         "past the end of the data",
     ]
@@ -738,10 +959,9 @@ def run(chk):
 
 
 MODELLED_NOT_PROVED = [
-    "sections_refine / reparse_sections for COMPRESSED initial messages: stated in full (Props.C10.sections_refine_compressed, "
-    "with a Lean reference compressor), evaluated by the kernel on instances, checked by correspondence + oracle on "
-    "compressed reference encodings; proved: memory safety on every input, insertion_is_shift and "
-    "pointers_preserved_partial (resolution preserved along re-targeted paths) for any stored bytes",
+    "stored messages that wfMsg rejects: memory safety, insertion_is_shift and pointers_preserved_partial hold for any stored "
+    "bytes; names can change silently when a pointer designates a later section (KF-C10-12) or does not designate a label "
+    "boundary of a name update_records knows, e.g. points into SRV data (KF-C10-13): names_preserved_all is refuted by a witness",
     "DNS::soa_record setters and the soa_record(resource) path are modelled through soa_record::init only (the data string of "
     "the resource is the buffer); DNS::resource::data(const soa_record&) is serialize() + assign",
     "inet_pton / inet_ntop are parameters of the model",
